@@ -484,6 +484,12 @@ func runSequence(res *vh.Result, cases *vh.Cases, r *vh.Rand, allow0 bool, fixed
 			res.Fail("reported-not-current", fmt.Sprintf("op %d: reported %v, Current()=%s", i, ob.Reports, ob.Cur), rp)
 		}
 	}
+	// a context handed over by AskMoveState after the harness had given up waiting for it (scheduling delay):
+	// the recorded classification of that op is unreliable, the case is not compared
+	if _, late := st.VerifTakeAsked(5 * time.Millisecond); late {
+		res.Dist("discarded_late_ask")
+		return
+	}
 	moved := 0
 	for i := range obs {
 		if i > 0 && obs[i].Cur != obs[i-1].Cur {
@@ -731,7 +737,7 @@ func main() {
 	for _, ops := range corpus() {
 		runSequence(res, cases, r, true, ops, len(ops), "corpus")
 	}
-	n := o.Pick(2000, 50000)
+	n := o.Pick(2000, 20000)
 	for i := 0; i < n; i++ {
 		runSequence(res, cases, r, r.Chance(2, 3), nil, r.Range(2, 12), "random")
 	}
